@@ -36,6 +36,10 @@ pub struct ChannelContext { pub cfg: ChannelConfig, pub prev: Option<ChannelConf
 impl ChannelContext {
     #[verifier::external_body] pub fn config(&self) -> (r: ChannelConfig) ensures r == self.cfg { unimplemented!() }
     #[verifier::external_body] pub fn prev_config(&self) -> (r: Option<ChannelConfig>) ensures r == self.prev { unimplemented!() }
+    // accessors of the CURRENT config (so that a change that reads the current policy where the passed-in one is meant is verified, not rejected)
+    #[verifier::external_body] pub fn get_fee_proportional_millionths(&self) -> (r: u32) ensures r == self.cfg.forwarding_fee_proportional_millionths { unimplemented!() }
+    #[verifier::external_body] pub fn get_outbound_forwarding_fee_base_msat(&self) -> (r: u32) ensures r == self.cfg.forwarding_fee_base_msat { unimplemented!() }
+    #[verifier::external_body] pub fn get_cltv_expiry_delta(&self) -> (r: u16) ensures r >= self.cfg.cltv_expiry_delta { unimplemented!() }
     #[verifier::external_body] pub fn get_counterparty_htlc_minimum_msat(&self) -> (r: u64) ensures r == self.counterparty_htlc_minimum_msat { unimplemented!() }
 }
 pub struct FundedChannel { pub context: ChannelContext }
